@@ -39,6 +39,9 @@ ASSUMPTIONS = [
     '"rejected" means any exception (short datagrams raise struct.error / IndexError rather than DecodingError)',
     'a pong whose supported-interactions byte is not 0, or whose OEM fields fail check_data, is rejected by the library; '
     'the property does not decide this and it is only compared with the model',
+    'the send model is a function of the session configuration at the moment of sending (Sess: auth type, session id, '
+    'sequence number, activated, password); histories on one real Session / Rmcp object are compared send by send '
+    'with the model applied to the configuration the caller put last',
 ]
 TRUSTED = ['harness/translate/rmcp.py', 'harness/sim/fakesock.py', 'harness/props/c05.py']
 
